@@ -2,11 +2,15 @@
   C08 — cmap-only fonts: no character is lost, duplicated or moved across clusters.
   Theorems about the record movers of the buffer model: they only permute (or delete exactly the
   requested) records.  The syllabic shapers are outside the model; for them the property rests on the
-  `conservation` search of tools/props/C08.py.
+  `conservation` search of tools/props/C08.py.  The normalizer's variation-selector round
+  (`handle_variation_selector_cluster`, model `Norm.vsLoop`, tied to the crate by C09's `norm-run` stream)
+  keeps every record: `C08_vs_round_keeps`, `C08_vs_round_chars`.
 -/
 import RbModel.Buf
 import RbModel.Lemmas.Mem
 import RbModel.Props.C16
+import RbModel.Norm
+import RbModel.Lemmas.NormVS
 
 namespace RbModel.Buf
 open RbModel.Mem
@@ -159,3 +163,44 @@ theorem C08_default_shaper_conserves (u : Ucd) (f : Font) (c : Cfg) (text : List
   · by_cases hb : c.dir.isBackward = true <;> simp [hb]
 
 end RbModel.Pipeline
+
+
+/-! ## The variation-selector round of the normalizer keeps every record
+
+`Norm.vsLoop` is `ot_shape_normalize.rs::handle_variation_selector_cluster` on the zipper `(out, inp)` with
+`n = end - idx` records of the cluster still to go (`n ≤ inp.length`: the cluster lies inside the buffer). -/
+namespace RbModel.Norm
+
+/-- **Fonts without variation sequences** (no cmap format 14 hit — every cmap-only font of the property):
+    the round appends the `n` records of the cluster to the out-buffer, each with its character, cluster and
+    mask (`Info.key`) and in the input order — one or several consecutive selectors after a base, after a mark
+    or at the end of the cluster alike — and leaves the rest of the input untouched.  Nothing is lost,
+    duplicated or moved. -/
+theorem C08_vs_round_keeps (U : UData) (F : Font) (K : Consts) (n : Nat) (out inp : List Info) (flags : Nat)
+    (hn : n ≤ inp.length) (hnv : ∀ a b, F.variant a b = none) :
+    (vsLoop U F K n out inp flags).1.map Info.key = out.map Info.key ++ (inp.take n).map Info.key ∧
+    (vsLoop U F K n out inp flags).2.1 = inp.drop n :=
+  vsLoop_keeps U F K n out inp flags hn hnv
+
+example : ∃ F : Font, ∀ a b, F.variant a b = none := ⟨{ glyph := fun _ => none }, fun _ _ => rfl⟩
+
+/-- the instance the text of the property is about: base, selector, selector — three records come out -/
+example (U : UData) (F : Font) (K : Consts) (a v w : Info) (flags : Nat) (hnv : ∀ a b, F.variant a b = none) :
+    (vsLoop U F K 3 [] [a, v, w] flags).1.map Info.key = [a.key, v.key, w.key] := by
+  have := (C08_vs_round_keeps U F K 3 [] [a, v, w] flags (by simp) hnv).1
+  simpa using this
+
+/-- **Any font**, with or without variation sequences: what the round appends to the out-buffer is a sublist of
+    the cluster's characters (same order, nothing added or duplicated) that contains every character which is
+    not a variation selector; the only records that can disappear are selectors absorbed into the variant glyph
+    of their base (`replace_glyphs(2, 1)` after a cmap format 14 hit).  The records already output and the
+    records still to come keep their characters (their clusters may be merged). -/
+theorem C08_vs_round_chars (U : UData) (F : Font) (K : Consts) (n : Nat) (out inp : List Info) (flags : Nat)
+    (hn : n ≤ inp.length) :
+    ∃ kept, (vsLoop U F K n out inp flags).1.map (·.cp) = out.map (·.cp) ++ kept ∧
+      kept.Sublist ((inp.take n).map (·.cp)) ∧
+      kept.filter (fun c => !U.isVS c) = ((inp.take n).map (·.cp)).filter (fun c => !U.isVS c) ∧
+      (vsLoop U F K n out inp flags).2.1.map (·.cp) = (inp.drop n).map (·.cp) :=
+  vsLoop_chars U F K n out inp flags hn
+
+end RbModel.Norm
